@@ -48,6 +48,67 @@ def _ew(name):
     return f
 
 
+_CMP = {_np.less: lambda a, b: a < b, _np.less_equal: lambda a, b: a <= b, _np.greater: lambda a, b: a > b,
+        _np.greater_equal: lambda a, b: a >= b, _np.equal: lambda a, b: a == b, _np.not_equal: lambda a, b: a != b}
+
+
+class SymArray(_np.ndarray):
+    """object ndarray whose comparisons and masked assignments stay symbolic:
+    `a <= c` gives an object array of SB (no bool() per element), `a[mask] = v` becomes an elementwise if-then-else.
+    Without this, `x[x <= 0.5] = c` forks 2^len paths."""
+
+    def __array_ufunc__(self, ufunc, method, *inputs, out=None, **kw):
+        if method == '__call__' and ufunc in _CMP and out is None:
+            arrs = [_np.asarray(i) if isinstance(i, _np.ndarray) else i for i in inputs]
+            if any(isinstance(a, _np.ndarray) and a.dtype == object for a in arrs):
+                ba = _np.broadcast_arrays(*[_np.asarray(a, dtype=object) if not isinstance(a, (SV, SInt)) else _np.array(a, dtype=object) for a in arrs])
+                res = _np.empty(ba[0].shape, dtype=object)
+                symbolic = False
+                f = _CMP[ufunc]
+                for idx in _np.ndindex(ba[0].shape):
+                    r = f(ba[0][idx], ba[1][idx])
+                    symbolic |= isinstance(r, SB)
+                    res[idx] = r
+                if not symbolic:
+                    return res.astype(bool)
+                return res.view(SymArray)
+        ins = [i.view(_np.ndarray) if isinstance(i, SymArray) else i for i in inputs]
+        if out is not None:
+            kw['out'] = tuple(o.view(_np.ndarray) if isinstance(o, SymArray) else o for o in out)
+        r = getattr(ufunc, method)(*ins, **kw)
+        if isinstance(r, _np.ndarray) and r.dtype == object and out is None:
+            return r.view(SymArray)
+        if out is not None and isinstance(r, _np.ndarray):
+            return out[0]
+        return r
+
+    def __setitem__(self, key, val):
+        if isinstance(key, _np.ndarray) and key.dtype == object and key.shape == self.shape and any(isinstance(k, SB) for k in key.ravel()):
+            base = self.view(_np.ndarray)
+            vb = _np.broadcast_to(_np.asarray(val, dtype=object), self.shape) if isinstance(val, _np.ndarray) else None
+            for idx in _np.ndindex(self.shape):
+                v = vb[idx] if vb is not None else val
+                k = key[idx]
+                if isinstance(k, SB):
+                    base[idx] = core.If(k, v, base[idx])
+                elif k:
+                    base[idx] = v
+            return
+        _np.ndarray.__setitem__(self, key, val)
+
+    def __getitem__(self, key):
+        if isinstance(key, _np.ndarray) and key.dtype == object and any(isinstance(k, SB) for k in key.ravel()):
+            raise Realize('selection by a symbolic mask')
+        r = _np.ndarray.__getitem__(self, key)
+        return r
+
+
+def _sa(a):
+    if isinstance(a, _np.ndarray) and a.dtype == object and not isinstance(a, SymArray) and a.ndim > 0:
+        return a.view(SymArray)
+    return a
+
+
 class _FInfo:
     def __init__(self, real):
         c = Ctx.cur
@@ -80,7 +141,19 @@ class NPShim(types.ModuleType):
     def _obj(shape, fill):
         a = _np.empty(shape, dtype=object)
         a[...] = fill
-        return a
+        return _sa(a)
+
+    @staticmethod
+    def cumsum(a, *args, **kw):
+        return _sa(_np.cumsum(a, *args, **kw))
+
+    @staticmethod
+    def concatenate(a, *args, **kw):
+        return _sa(_np.concatenate(a, *args, **kw))
+
+    @staticmethod
+    def array(a, *args, **kw):
+        return _sa(_np.array(a, *args, **kw))
 
     def zeros(self, shape, dtype=float, **kw):
         if dtype in (float, _np.float64, None):
@@ -218,6 +291,11 @@ class NPShim(types.ModuleType):
                 m = core.If(v < m, v, m)
             return m
         return _np.min(x, *a, **k)
+
+    @staticmethod
+    def bincount(x, minlength=0, **k):
+        from .contracts import bincount
+        return bincount(x, minlength=minlength)
 
     @staticmethod
     def vectorize(f, *a, **k):
